@@ -35,7 +35,7 @@ CONSTANTS FracSet, MemSet, DevSet,   \* class names
 (***************************************************************************)
 \* what strconv.ParseFloat makes of a representative of the class
 FloatCat(c) ==
-  CASE c \in {"dec", "dec3", "exp", "hex", "plus"} -> "in01"
+  CASE c \in {"dec", "dec3", "exp", "hex", "plus", "cent"} -> "in01"
     [] c = "subcenti" -> "tiny01"            \* in (0, 0.005): rounds to 0.00 GPU
     [] c = "one" -> "eq1"
     [] c \in {"gt1", "u64"} -> "gt1"
@@ -46,11 +46,11 @@ FloatCat(c) ==
     [] OTHER -> "err"                        \* empty, ws, ovf (ErrRange), nonnum
 \* strconv.ParseUint(s, 10, 64) / strconv.ParseInt(s, 10, 64)
 UintCat(c) ==
-  CASE c \in {"pos", "lead0", "max64", "big32", "u64", "one", "two", "huge"} -> "pos"
+  CASE c \in {"pos", "lead0", "max64", "big32", "u64", "one", "two", "three", "huge"} -> "pos"
     [] c = "zero" -> "zero"
     [] OTHER -> "err"                        \* empty, neg, exp, hex, plus, ws, nan, ovf, nonnum, dec
 IntCat(c) ==
-  CASE c \in {"pos", "lead0", "max64", "big32", "plus", "one", "two", "huge"} -> "pos"
+  CASE c \in {"pos", "lead0", "max64", "big32", "plus", "one", "two", "three", "huge"} -> "pos"
     [] c = "zero" -> "zero"
     [] c = "neg" -> "neg"
     [] OTHER -> "err"                        \* ... and u64: out of range for int64
@@ -59,14 +59,14 @@ Int32Cat(c) == IF c \in {"max64", "big32"} THEN "err" ELSE IntCat(c)
 \* what the string DENOTES (the harness's grammar: decimal / exponent / hex-float literals with an
 \* optional sign; nothing else)
 FracDen(c) ==
-  CASE c \in {"dec", "dec3", "exp", "hex", "plus", "subcenti", "udf"} -> "in01"
+  CASE c \in {"dec", "dec3", "exp", "hex", "plus", "subcenti", "udf", "cent"} -> "in01"
     [] c = "one" -> "eq1"
     [] c \in {"gt1", "u64", "ovf"} -> "gt1"
     [] c = "zero" -> "zero"
     [] c = "neg" -> "neg"
     [] OTHER -> "bottom"                     \* empty, ws, nan, inf, nonnum
 IntDen(c) ==
-  CASE c \in {"pos", "lead0", "plus", "max64", "big32", "u64", "ovf", "one", "two", "huge", "exp"} -> "posint"
+  CASE c \in {"pos", "lead0", "plus", "max64", "big32", "u64", "ovf", "one", "two", "three", "huge", "exp"} -> "posint"
     [] c = "zero" -> "zero"
     [] c = "neg" -> "neg"
     [] c = "dec" -> "nonint"
@@ -122,7 +122,7 @@ M_Dwf(p) == FracWF(p) /\ MemWF(p) /\ DevWF(p) /\ CombosWF(p)
 DKind(p) == IF Present(p.frac) THEN "fraction" ELSE IF Present(p.mem) THEN "memory"
             ELSE IF WholeLimit(p) THEN "whole" ELSE "none"
 \* a request the cluster of the binder stage can hold at all (8 GPUs per node)
-M_Fits(p) == (Present(p.dev) => p.dev \in {"one", "two", "plus"}) /\ (Present(p.mem) => p.mem \in {"pos", "lead0", "plus"})
+M_Fits(p) == (Present(p.dev) => p.dev \in {"one", "two", "three", "plus"}) /\ (Present(p.mem) => p.mem \in {"pos", "lead0", "plus"})
 \* the binder materialises a positive portion (two decimals) for everything but sub-centi fractions
 M_BindExact(p) == Present(p.frac) => FloatCat(p.frac) # "tiny01"
 
@@ -132,16 +132,23 @@ M_BindExact(p) == Present(p.frac) => FloatCat(p.frac) # "tiny01"
 CoreF == {"absent", "dec"}
 CoreM == {"absent", "pos"}
 CoreD == {"absent", "two"}
-Pods0 == [frac : FracSet, mem : MemSet, dev : DevSet, ctr : CtrSet, fcn : FcnSet, sharing : SharingSet]
+\* class "cent" = EVERY two-decimal value 0.01 .. 0.99 (field cv = the value in 1/100 GPU), crossed with 1..3
+\* devices: the values whose product with 100 is not an integer in binary floating point are among them
+Pods0 == [frac : FracSet \ {"cent"}, mem : MemSet, dev : DevSet, ctr : CtrSet, fcn : FcnSet, sharing : SharingSet, cv : {0}]
+CentPods == IF "cent" \in FracSet
+            THEN [frac : {"cent"}, mem : {"absent"}, dev : {"absent", "one", "two", "three"}, ctr : {"none"},
+                  fcn : {"absent", "init"} \cap FcnSet, sharing : {1} \cap SharingSet, cv : 1..99]
+            ELSE {}
 NonCore(p) == (IF p.frac \notin CoreF THEN 1 ELSE 0) + (IF p.mem \notin CoreM THEN 1 ELSE 0) + (IF p.dev \notin CoreD THEN 1 ELSE 0)
-Pods == {p \in Pods0 : NonCore(p) <= MaxNonCore}
+Pods == {p \in Pods0 : NonCore(p) <= MaxNonCore} \cup CentPods
 
 Sig(p) ==
-  LET f == IF p.frac \notin CoreF THEN "gpu-fraction=" \o p.frac ELSE ""
+  LET f == IF p.frac = "cent" THEN "gpu-fraction=cent:" \o ToString(p.cv)
+           ELSE IF p.frac \notin CoreF THEN "gpu-fraction=" \o p.frac ELSE ""
       m == IF p.mem \notin CoreM THEN "gpu-memory=" \o p.mem ELSE ""
-      d == IF p.dev \notin CoreD THEN "num-devices=" \o p.dev ELSE ""
+      d == IF p.dev \notin CoreD /\ p.frac # "cent" THEN "num-devices=" \o p.dev ELSE ""
       sep(a, b) == IF a # "" /\ b # "" THEN a \o " " \o b ELSE a \o b
-  IN IF NonCore(p) = 0
+  IN IF NonCore(p) = 0 /\ p.frac # "cent"
      THEN "core frac=" \o p.frac \o " mem=" \o p.mem \o " dev=" \o p.dev \o " ctr=" \o p.ctr \o " fcn=" \o p.fcn
           \o " sharing=" \o ToString(p.sharing)
      ELSE sep(sep(f, m), d)
